@@ -35,10 +35,10 @@ def analyse(ctx, replace=None, only=None):
     for f in ts.values():
         R.fn(f)
     who(R, P, ts)
-    run_rules(R, ts)
+    run_rules(R, ts, P)
     schedule_rules(R, ts)
     cancel_rules(R, ts)
-    has_tasks_rules(R, ts)
+    has_tasks_rules(R, ts, P=P)
     comparator(R, ts)
     from rules import C06
     C06.queue_rules(R, P)
@@ -59,7 +59,7 @@ def who(R, P, ts):
     R.require(n == 1, "expected exactly one invocation site of task->fn in the library, found %d" % n)
 
 
-def run_rules(R, ts):
+def run_rules(R, ts, P=None):
     f = ts["aws_task_run"]
     dom = dominators(f)
     inv = [e for e in f.indirect_calls() if RU.indirect_via(f, e.node) == ("aws_task", "fn")]
@@ -136,7 +136,7 @@ def run_rules(R, ts):
     sw = [e for e, dst, src in RU.list_take_alls(f) if dst == batch and src == "scheduler->asap_list" and e.node["callee"] != "aws_linked_list_move_all_front"]
     R.check(len(sw) == 1 and all(ev_dominates(f, sw[0], p, dom) for p in pushes), "BATCH", "run-now-first", where(f, (sw or pushes)[0]), "run-now tasks are taken first, timed tasks appended after them",
             "the run-now list is not moved into the batch before timed tasks are appended")
-    R.check(all(p.node["callee"] == "aws_linked_list_push_back" for p in pushes) and len(pushes) >= 3, "BATCH", "append-only", "%s()" % f.name, "timed tasks are appended with push_back (%d sites)" % len(pushes),
+    R.check(all(p.node["callee"] == "aws_linked_list_push_back" for p in pushes) and len(pushes) >= 1, "BATCH", "append-only", "%s()" % f.name, "timed tasks are appended with push_back (%d sites)" % len(pushes),
             "a timed task is inserted other than at the back of the batch: time order is broken")
     pops_f = [e for e, l in RU.list_pops(f, "front") if l == batch]
     pops = pops_f + [e for e, l in RU.list_pops(f, "back") if l == batch]
@@ -162,6 +162,12 @@ def run_rules(R, ts):
     R.check(okl, "BATCH", "runs-until-empty", "%s()" % f.name, "the run loop continues until the batch is empty", "the run loop does not drain the whole batch")
 
     # NEVER-EARLY
+    moves = [e for e in f.calls("aws_priority_queue_pop") if argstr(f, e.node, 0) == "scheduler->timed_queue"] + \
+            [e for e, l in RU.list_pops(f, "front") if l == "scheduler->timed_list"]
+    R.require(len(moves) >= 2, "s_run_all: expected heap pops and a timed-list pop, found %d" % len(moves))
+    if P is not None:
+        never_early_num(R, f, P, moves, batch)
+        return
     moves = [e for e in f.calls("aws_priority_queue_pop") if argstr(f, e.node, 0) == "scheduler->timed_queue"] + \
             [e for e, l in RU.list_pops(f, "front") if l == "scheduler->timed_list"]
     R.require(len(moves) == 3, "s_run_all: expected 2 heap pops and 1 timed-list pop, found %d" % len(moves))
@@ -244,6 +250,140 @@ def run_rules(R, ts):
                 if (kl, g[1], kr) in (("heap", "<", "list"), ("list", ">", "heap")):
                     okm = True
     R.check(okm, "NEVER-EARLY", "merge-by-time", "%s()" % f.name, "between heap and list the earlier task is taken first")
+
+
+class SchedHooks(__import__("sa.awslib", fromlist=["AwsHooks"]).AwsHooks):
+    """The scheduler's three containers, symbolically: `is the list empty` / `does the heap have a top` are one unknown each
+    until the container is changed; the list's first node and the heap's top task are one unknown object each."""
+
+    def call(self, num, st, e, args):
+        from sa.num import Poly
+        AwsHooks = __import__("sa.awslib", fromlist=["AwsHooks"]).AwsHooks
+        c = e.get("callee")
+        fn = num.fn
+        tests = dict(st.notes.get("tests", {}))
+        if c == "aws_linked_list_empty":
+            which = argstr(fn, e, 0)
+            if which not in tests:
+                tests[which] = num.fresh(st, "empty", None, (0, 1))
+                st.notes["tests"] = tests
+            return Poly.atom(tests[which])
+        if c == "aws_priority_queue_top" and len(e["a"]) >= 2:
+            if "top" not in tests:
+                tests["top"] = num.fresh(st, "top", None, (-1, 0))
+                slot = num.fresh(st, "topslot", None, (1, 2 ** 62))
+                task = num.fresh(st, "toptask", None, (2 ** 12, 2 ** 62))
+                st.extent[slot] = Poly.const(8)
+                st.notes["cells"] = list(st.notes.get("cells", [])) + [(Poly.atom(slot), 8, Poly.atom(task))]
+                st.notes["toptask"], st.notes["topslot"], st.notes["tests"] = task, slot, tests
+            tgt = RU.strip_addr(fn, e["a"][1])
+            k = num.key(tgt, st) if tgt is not None else None
+            if k:
+                st.env[k] = Poly.atom(st.notes["topslot"])
+            return Poly.atom(tests["top"])
+        if c in RU.LIST_FRONT:
+            which = argstr(fn, e, 0)
+            fr = dict(st.notes.get("fronts", {}))
+            if which not in fr:
+                fr[which] = num.fresh(st, "front", None, (2 ** 12, 2 ** 62))
+                st.notes["fronts"] = fr
+                if which.endswith("timed_list"):
+                    st.notes["front"], st.notes["frontof"] = fr[which], which
+            return Poly.atom(fr[which])
+        if c in ("aws_priority_queue_pop", "aws_priority_queue_remove", "aws_priority_queue_push", "aws_priority_queue_push_ref"):
+            tests.pop("top", None)
+            st.notes["tests"] = tests
+            st.notes.pop("toptask", None)
+            return NotImplemented if False else AwsHooks.call(self, num, st, e, args)
+        if c in ("aws_linked_list_pop_front", "aws_linked_list_pop_back", "aws_linked_list_remove", "aws_linked_list_push_back", "aws_linked_list_push_front",
+                 "aws_linked_list_swap_contents", "aws_linked_list_move_all_back", "aws_linked_list_move_all_front", "aws_linked_list_insert_before", "aws_linked_list_insert_after"):
+            lists = [argstr(fn, e, i) for i in range(min(2, len(e["a"])))]
+            if c == "aws_linked_list_remove":
+                o = RU.origin(fn, RU.arg(fn, e, 0))
+                lists = [argstr(fn, o, 0)] if o is not None and o["k"] == "call" and o.get("callee") in RU.LIST_FRONT + RU.LIST_BACK else list(tests)
+            ret = None
+            fr = dict(st.notes.get("fronts", {}))
+            for l_ in lists:
+                if c == "aws_linked_list_pop_front" and l_ in fr:
+                    ret = Poly.atom(fr[l_])
+                tests.pop(l_, None)
+                fr.pop(l_, None)
+                if st.notes.get("frontof") == l_:
+                    st.notes.pop("front", None)
+                    st.notes.pop("frontof", None)
+            st.notes["tests"], st.notes["fronts"] = tests, fr
+            if ret is not None:
+                return ret
+            return AwsHooks.call(self, num, st, e, args)
+        return AwsHooks.call(self, num, st, e, args)
+
+
+def never_early_num(R, f, P, moves, batch):
+    """NEVER-EARLY, decided on NUM's path states with the containers symbolic (SchedHooks):
+    line-guard     at every move the task moved has timestamp <= current_time;
+    merge-by-time  the heap's top is taken only when the timed list has no due head or the top is strictly earlier; the
+                   list's head only when the heap has no due top or the head is not later than it;
+    left-only-when-later   when the run phase starts, the timed list is empty or its head is later than current_time, and
+                   the heap is empty or its top is later - whatever loops, breaks and sentinels the move phase is made of."""
+    from sa.num import Num, Poly, Limit, entails
+    now_name = f.params[1]["n"]
+    dom = dominators(f)
+    run_hdr = None
+    for b in f.blocks.values():
+        if b.term in ("while", "for") and b.cond is not None:
+            c, neg = RU.cond_call(f, b.cond)
+            if c is not None and c.get("callee") == "aws_linked_list_empty" and argstr(f, c, 0) == batch and neg:
+                run_hdr = c
+    if not R.require(run_hdr is not None, "s_run_all: the run loop (while the batch is not empty) not found"):
+        return
+    num = Num(f, P, SchedHooks(), max_paths=20000)
+    try:
+        sts = num.states_at({m.node["id"] for m in moves} | {run_hdr["id"]})
+    except Limit as ex:
+        R.broken(str(ex))
+        return
+
+    def view(st):
+        tests = st.notes.get("tests", {})
+        now = st.env.get("v:" + now_name)
+        L = next((v for k, v in st.env.items() if k.endswith(")->timestamp") and st.notes.get("front") and st.notes["front"] in k), None)
+        H = next((v for k, v in st.env.items() if k.endswith(")->timestamp") and st.notes.get("toptask") and st.notes["toptask"] in k), None)
+
+        def nonzero(name):
+            a_ = next((v for k, v in tests.items() if k.endswith(name)), None)
+            return a_ is not None and (entails(st, Poly.const(1) - Poly.atom(a_)) or entails(st, Poly.atom(a_) + 1))
+        return now, L, H, nonzero("timed_list"), nonzero("top")
+
+    for m in moves:
+        kind = "heap" if m.node["callee"] == "aws_priority_queue_pop" else "list"
+        okg, okm, n_, det = True, True, 0, ""
+        for st in sts.get(m.node["id"], []):
+            n_ += 1
+            now, L, H, list_empty, heap_empty = view(st)
+            mine, other, other_none = (H, L, list_empty) if kind == "heap" else (L, H, heap_empty)
+            if now is None or mine is None or not entails(st, mine - now):
+                okg, det = False, "task time %r, current_time %r" % (mine, now)
+            other_later = other is not None and now is not None and entails(st, now + 1 - other)
+            if kind == "heap":
+                earlier = other is not None and mine is not None and entails(st, mine + 1 - other)   # H < L
+            else:
+                earlier = other is not None and mine is not None and entails(st, mine - other)       # L <= H
+            if not (other_none or other_later or earlier):
+                okm = False
+        R.check(okg and n_ >= 1, "NEVER-EARLY", "%s:line-guard" % m.node["callee"], where(f, m), "the task moved has timestamp <= current_time in all %d states" % n_,
+                "a timed task is moved into the batch without the guard timestamp <= current_time on that task (%s): it can run early" % det)
+        R.check(okm and n_ >= 1, "NEVER-EARLY", "merge-by-time:%s" % kind, where(f, m), "between heap and list the earlier due task is taken first",
+                "a task is moved into the batch although the other container holds an earlier due task: tasks run out of time order")
+    oke, n_, det = True, 0, ""
+    for st in sts.get(run_hdr["id"], []):
+        n_ += 1
+        now, L, H, list_empty, heap_empty = view(st)
+        ok_l = list_empty or (L is not None and now is not None and entails(st, now + 1 - L))
+        ok_h = heap_empty or (H is not None and now is not None and entails(st, now + 1 - H))
+        if not (ok_l and ok_h):
+            oke, det = False, "%s (trail %s)" % (", ".join(x for x, o in (("the timed list may hold a due head", ok_l), ("the heap may hold a due top", ok_h)) if not o), st.trail[-5:])
+    R.check(oke and n_ >= 1, "NEVER-EARLY", "move-loop-left-only-when-later", "%s()" % f.name, "the run phase starts only when neither container holds a due task (%d states)" % n_,
+            "a move loop is abandoned although due tasks may remain (they would not run in this call): %s" % det)
 
 
 def _assignment_of(f, ev):
@@ -335,61 +475,114 @@ def cancel_rules(R, ts):
     R.check(all(run[0] in RU.reach_from(f, e) for e in rm + pq), "CANCEL", "detach-before-invoke", where(f, run[0]), "the task is detached before it is invoked")
 
 
-def has_tasks_rules(R, ts, batch=True):
+def has_tasks_rules(R, ts, batch=True, P=None):
     f = ts["aws_task_scheduler_has_tasks"]
     dom = dominators(f)
-    rets = f.returns()
-    hv = None
+    # NUM over every return state.  The three container tests (run-now list empty?, timed list empty?, heap top available?)
+    # are symbolic; what the function answers is compared with what the tests it made on that path say:
+    #   result: true with at least one container seen non-empty, false only with all three seen empty;
+    #   time:   0 when the run-now list is non-empty; else the timed list's head / the heap's top / the smaller of the two;
+    #           UINT64_MAX when everything is empty
+    # - however the flag, the early returns and the minimum are written.
+    from sa.num import Num, Poly, Limit, entails
+    from sa.awslib import AwsHooks, target_of
+
+    class H(AwsHooks):
+        def call(self, num, st, e, args):
+            c = e.get("callee")
+            if c == "aws_linked_list_empty":
+                which = argstr(num.fn, e, 0)
+                memo = dict(st.notes.get("tests", {}))
+                if which not in memo:
+                    memo[which] = num.fresh(st, "empty", None, (0, 1))
+                    st.notes["tests"] = memo
+                return Poly.atom(memo[which])
+            if c == "aws_priority_queue_top" and len(e["a"]) >= 2:
+                memo = dict(st.notes.get("tests", {}))
+                if "top" not in memo:
+                    memo["top"] = num.fresh(st, "top", None, (-1, 0))
+                    slot = num.fresh(st, "topslot", None, (1, 2 ** 62))
+                    task = num.fresh(st, "toptask", None, (1, 2 ** 62))
+                    st.extent[slot] = Poly.const(8)
+                    st.notes["cells"] = list(st.notes.get("cells", [])) + [(Poly.atom(slot), 8, Poly.atom(task))]
+                    st.notes["toptask"] = task
+                    st.notes["topslot"] = slot
+                    st.notes["tests"] = memo
+                tgt = RU.strip_addr(num.fn, e["a"][1])
+                k = num.key(tgt, st) if tgt is not None else None
+                if k:
+                    st.env[k] = Poly.atom(st.notes["topslot"])
+                return Poly.atom(memo["top"])
+            if c in RU.LIST_FRONT:
+                if "front" not in st.notes:
+                    st.notes["front"] = num.fresh(st, "front", None, (2 ** 12, 2 ** 62))
+                    st.notes["frontof"] = argstr(num.fn, e, 0)
+                return Poly.atom(st.notes["front"])
+            return AwsHooks.call(self, num, st, e, args)
+    num = Num(f, P, H(), max_paths=4000)
+    rets = [x for b in f.blocks.values() for x in b.elems if x["k"] == "ret"]
+    try:
+        sts = num.states_at({r["id"] for r in rets})
+    except Limit as ex:
+        R.broken(str(ex))
+        sts = {}
+    outp = f.params[1]["n"] if len(f.params) >= 2 else None
+    bad_flag, bad_time, nst, ntime = [], [], 0, 0
+    MAXT = 2 ** 64 - 1
     for r in rets:
-        v = RU.uncast(f, r.node["a"][0]) if r.node["a"] else None
-        R.check(v is not None and v["k"] == "var", "HAS-TASKS", "returns-the-flag", where(f, r), "returns the has-tasks flag",
-                "the return value is computed as %s instead of the flag set by the container checks: a task at the maximum timestamp is reported as no task" % (f.show(v) if v else None))
-        if v is not None and v["k"] == "var":
-            hv = v["n"]
-    if hv:
-        st = [e for e in f.all_events() if e.kind == "access" and e.node["k"] == "var" and e.node["n"] == hv and e.mode == "w"]
-        evid = {"asap": False, "timed_list": False, "queue": False}
-        for s in st:
-            a = _assignment_of(f, s)
-            if a is None or f.is_const(a["a"][1]) != 1:
+        for st in sts.get(r["id"], []):
+            nst += 1
+            rv = num.val(r["a"][0], st) if r.get("a") else None
+            tests = st.notes.get("tests", {})
+
+            def known(name, zero):
+                a_ = next((v for k, v in tests.items() if k.endswith(name)), None)
+                if a_ is None:
+                    return False
+                p_ = Poly.atom(a_)
+                return (entails(st, p_) and entails(st, -p_)) if zero else (entails(st, Poly.const(1) - p_) or entails(st, p_ + 1))
+            asap_ne, timed_ne, heap_ne = known("asap_list", True), known("timed_list", True), known("top", True)
+            asap_e, timed_e, heap_e = known("asap_list", False), known("timed_list", False), known("top", False)
+            line = r["loc"][0]
+            if rv is not None and rv.is_const() and rv.cval() == 1:
+                if not (asap_ne or timed_ne or heap_ne):
+                    bad_flag.append("line %d answers true without having seen a non-empty container" % line)
+            elif rv is not None and rv.is_const() and rv.cval() == 0:
+                if not (asap_e and timed_e and heap_e):
+                    bad_flag.append("line %d answers false although %s not seen empty" % (line, [n for n, e_ in (("the run-now list", asap_e), ("the timed list", timed_e), ("the heap", heap_e)) if not e_]))
+            else:
+                bad_flag.append("line %d: the answer %r is not decided by the container tests" % (line, rv))
+            # the reported time
+            pv = st.env.get("v:" + outp) if outp else None
+            if pv is None or not entails(st, Poly.const(1) - pv):
+                continue  # the caller did not ask for the time on this path
+            outs = [v for k, v in st.env.items() if k.endswith(")->") and len(pv.t) == 1 and k == "(%s)->" % list(pv.t)[0][0]]
+            ntime += 1
+            if len(outs) != 1:
+                bad_time.append("line %d: no time is written to *%s" % (line, outp))
                 continue
-            for c, p, b in RU.guards(f, s, dom):
-                cc, neg = RU.cond_call(f, c)
-                if cc is not None and cc.get("callee") == "aws_linked_list_empty" and (p != neg) is False:
-                    which = argstr(f, cc, 0)
-                    if which.endswith("asap_list"):
-                        evid["asap"] = True
-                    if which.endswith("timed_list"):
-                        evid["timed_list"] = True
-                t = RU.call_test(f, c, p)
-                if t and t[0].get("callee") == "aws_priority_queue_top" and t[1] == "zero":
-                    evid["queue"] = True
-        R.check(all(evid.values()), "HAS-TASKS", "flag-set-for-each-container", "%s()" % f.name, "flag set true when the run-now list, the timed list or the heap is non-empty",
-                "the flag is not set for every non-empty container: %s" % evid)
-    # time: initial UINT64_MAX, 0 for asap, min of the two
-    tvars = [e for e in f.all_events() if e.kind == "decl" and any(f.is_const(v.get("init")) == 2 ** 64 - 1 for v in e.node["vars"] if v.get("init"))]
-    R.check(len(tvars) >= 1, "HAS-TASKS", "time-defaults-to-max", "%s()" % f.name, "reported time starts at UINT64_MAX")
-    outs = [e for e in f.all_events() if e.kind == "access" and e.node["k"] == "un" and e.node["op"] == "deref" and e.mode == "w"]
-    R.check(len(outs) == 1, "HAS-TASKS", "time-reported", "%s()" % f.name, "next task time written to the out-parameter")
-    mins = []
-    for b in f.blocks.values():
-        for el in b.elems:
-            if el["k"] == "bin" and el["op"] in ("<", "<="):
-                if "->timestamp" in f.show(el["a"][0], alias=True) and f.show(RU.uncast(f, el["a"][1])) == "timestamp":
-                    mins.append(el)
-            if el["k"] == "bin" and el["op"] in (">", ">="):
-                if "->timestamp" in f.show(el["a"][1], alias=True) and f.show(RU.uncast(f, el["a"][0])) == "timestamp":
-                    mins.append(el)
-    # ... or the same minimum taken through the library's min helper
-    for b in f.blocks.values():
-        for el in b.elems:
-            if el["k"] == "bin" and el["op"] == "=" and f.show(RU.uncast(f, el["a"][0])) == "timestamp":
-                rh = RU.uncast(f, el["a"][1])
-                if rh is not None and rh["k"] == "call" and rh.get("callee") in ("aws_min_u64", "aws_min_size"):
-                    ops = sorted(f.show(RU.uncast(f, a)) for a in rh["a"])
-                    if len(ops) == 2 and "timestamp" in ops and any(o.endswith("->timestamp") for o in ops):
-                        mins.append(el)
-    R.check(len(mins) == 1, "HAS-TASKS", "minimum-of-heap-and-list", "%s()" % f.name, "the heap's top replaces the list's head only when strictly earlier")
+            T = outs[0]
+            L = next((v for k, v in st.env.items() if k.endswith(")->timestamp") and st.notes.get("front") and st.notes["front"] in k), None)
+            Hh = next((v for k, v in st.env.items() if k.endswith(")->timestamp") and st.notes.get("toptask") and st.notes["toptask"] in k), None)
+
+            def eq(a_, b_):
+                return a_ is not None and b_ is not None and entails(st, a_ - b_) and entails(st, b_ - a_)
+            if asap_ne:
+                okt = eq(T, Poly.const(0))
+            elif timed_ne and heap_ne:
+                okt = (eq(T, L) or eq(T, Hh)) and L is not None and Hh is not None and entails(st, T - L) and entails(st, T - Hh)
+            elif timed_ne:
+                okt = eq(T, L) and st.notes.get("frontof", "").endswith("timed_list")
+            elif heap_ne:
+                okt = eq(T, Hh)
+            else:
+                okt = eq(T, Poly.const(MAXT))
+            if not okt:
+                bad_time.append("line %d reports %r (run-now %s, timed list %s head %r, heap %s top %r)" % (line, T, "non-empty" if asap_ne else "empty", "non-empty" if timed_ne else "empty", L, "non-empty" if heap_ne else "empty", Hh))
+    R.check(not bad_flag and nst >= 2, "HAS-TASKS", "returns-the-flag", "%s()" % f.name, "true exactly when one of the three containers was seen non-empty (%d return states)" % nst,
+            "the answer does not follow the container tests: %s: a task at the maximum timestamp (or in a container not looked at) is reported as no task" % "; ".join(bad_flag[:2]))
+    R.check(not bad_time and ntime >= 2, "HAS-TASKS", "minimum-of-heap-and-list", "%s()" % f.name, "the time reported is 0 / the earlier of the timed list's head and the heap's top / UINT64_MAX (%d states)" % ntime,
+            "the next-task time reported is not the earliest pending time: %s" % "; ".join(bad_time[:2]))
     # "always reports the earliest pending time": every container a scheduled, not yet invoked task can sit in is looked at.
     # s_run_all moves the tasks of the current call into a list that is local to it before it invokes them one by one.
     ra = ts["s_run_all"]
